@@ -1,17 +1,19 @@
 import Driver.Proto
 import Driver.History
+import Driver.Algo
 /-
 fzfmodel: reads protocol lines `<area> <op> <args>... => <impl answer>` on stdin and
 prints, per line, `EQ|NE PASS|FAIL|NA | model=<answer> | <reason>`.
 -/
 open Driver
 
-def dispatch (area op : String) (args impl : List String) : Outcome :=
+def dispatch (ctx : Driver.Algo.Ctx) (area op : String) (args impl : List String) : Outcome :=
   match area with
   | "hist" => Driver.History.run op args impl
+  | "algo" => Driver.Algo.run ctx op args impl
   | _ => { model := "bad-area" }
 
-def processLine (line : String) : String :=
+def processLine (ctx : Driver.Algo.Ctx) (line : String) : String :=
   let (lhs, rhs) := match line.splitOn " => " with
     | [a, b] => (a, b)
     | [a] => (a, "")
@@ -21,8 +23,10 @@ def processLine (line : String) : String :=
   let impl := (rhs.splitOn " ").filter (· ≠ "")
   match toks with
   | area :: op :: args =>
-    let o := dispatch area op args impl
-    let eq := if o.model == " ".intercalate impl then "EQ" else "NE"
+    let o := dispatch ctx area op args impl
+    let eq := match o.same with
+      | some b => if b then "EQ" else "NE"
+      | none => if o.model == " ".intercalate impl || (o.model == "crash" && impl.head? == some "crash") then "EQ" else "NE"
     let tg := " | tags=" ++ ",".intercalate o.tags
     match o.spec with
     | none => s!"{eq} NA | model={o.model} |{tg}"
@@ -30,15 +34,17 @@ def processLine (line : String) : String :=
     | some (.error why) => s!"{eq} FAIL | model={o.model} | {why}{tg}"
   | _ => "NE NA | model=bad-line |"
 
-partial def loop (h : IO.FS.Stream) (out : IO.FS.Stream) : IO Unit := do
+partial def loop (ctx : Driver.Algo.Ctx) (h : IO.FS.Stream) (out : IO.FS.Stream) : IO Unit := do
   let line ← h.getLine
   if line.isEmpty then return ()
   let l := if line.endsWith "\n" then (line.dropEnd 1).toString else line
   if !l.isEmpty then
-    out.putStrLn (processLine l)
-  loop h out
+    out.putStrLn (processLine ctx l)
+  loop ctx h out
 
-def main : IO Unit := do
+def main (args : List String) : IO Unit := do
   let stdin ← IO.getStdin
   let stdout ← IO.getStdout
-  loop stdin stdout
+  let ctx ← Driver.Algo.loadCtx
+  let ctx := { ctx with prop := args.headD "" }
+  loop ctx stdin stdout
